@@ -6,6 +6,7 @@ One sort `Val` (DESIGN.md 3.1).  Built-in container operations are uninterpreted
 equivalence for free, and every operation symbol is a homomorphism for it (congruence, instantiated
 per occurring term by `closure_axioms`).
 """
+import os
 import time
 import z3
 
@@ -108,7 +109,13 @@ class Solver:
     def __init__(self, timeout_ms=10000, seed=0):
         self.timeout_ms = timeout_ms
         self.seed = seed
-        self.stats = {"queries": 0, "time": 0.0, "max": 0.0, "unknown": 0}
+        self.stats = {"queries": 0, "time": 0.0, "max": 0.0, "unknown": 0,
+                      "cvc5_checked": 0, "cvc5_unsat": 0, "cvc5_unknown": 0, "cvc5_error": 0, "cvc5_disagree": 0,
+                      "cvc5_time": 0.0}
+        # second back end (thorough tier): every k-th VC that z3 refutes is re-checked by /usr/bin/cvc5
+        self.cvc5_budget = int(os.environ.get("PYVC_CVC5", "0") or 0)
+        self.cvc5_every = max(1, int(os.environ.get("PYVC_CVC5_EVERY", "1") or 1))
+        self._n_unsat = 0
 
     def _mk(self):
         s = z3.Solver()
@@ -137,7 +144,36 @@ class Solver:
     def prove(self, assumptions, goal):
         """-> ('unsat'|'sat'|'unknown', model, smt2 text producer)"""
         r, m, s = self.check_sat(list(assumptions) + [z3.Not(goal)])
+        if r == z3.unsat and self.cvc5_budget > 0:
+            self._n_unsat += 1
+            if self._n_unsat % self.cvc5_every == 0:
+                self.cvc5_budget -= 1
+                self.cross_check(s)
         return ("unsat" if r == z3.unsat else "sat" if r == z3.sat else "unknown"), m, s
+
+    def cross_check(self, s):
+        """Re-check one refuted VC with cvc5 (SMT-LIB dump of the z3 solver; `'` in generated names is not a legal
+        SMT-LIB symbol character and is rewritten).  A `sat` answer is a solver disagreement."""
+        import re
+        import subprocess
+        import tempfile
+        txt = re.sub(r"(?<=[A-Za-z0-9_~])'(?=[!A-Za-z0-9_ )\n])", "_p", s.to_smt2())
+        f = tempfile.NamedTemporaryFile("w", suffix=".smt2", delete=False)
+        f.write("(set-logic ALL)\n" + txt)
+        f.close()
+        t = time.time()
+        try:
+            out = subprocess.run(["/usr/bin/cvc5", "--strings-exp", "--dt-nested-rec", "--tlimit=20000", f.name],
+                                 capture_output=True, text=True, timeout=40)
+            res = out.stdout.strip().split("\n")[0] if out.stdout.strip() else "error"
+        except Exception:
+            res = "error"
+        finally:
+            os.unlink(f.name)
+        self.stats["cvc5_time"] += time.time() - t
+        self.stats["cvc5_checked"] += 1
+        key = {"unsat": "cvc5_unsat", "unknown": "cvc5_unknown", "sat": "cvc5_disagree"}.get(res, "cvc5_error")
+        self.stats[key] += 1
 
 
 def subterms(exprs):
